@@ -38,6 +38,19 @@ func (mgr *AuthManager) AddAuthenticator(authenticator Authenticator) {
 	mgr.authenticators = append(mgr.authenticators, authenticator)
 }
 
+// RemoveAuthenticator removes the specified authenticator.
+func (mgr *AuthManager) RemoveAuthenticator(authenticator Authenticator) {
+	mgr.mutex.Lock()
+	defer mgr.mutex.Unlock()
+	authenticators := make([]Authenticator, 0, len(mgr.authenticators))
+	for _, a := range mgr.authenticators {
+		if a != authenticator {
+			authenticators = append(authenticators, a)
+		}
+	}
+	mgr.authenticators = authenticators
+}
+
 // ClearAuthenticators clears all authenticators.
 func (mgr *AuthManager) ClearAuthenticators() {
 	mgr.mutex.Lock()
